@@ -127,6 +127,37 @@ impl<T> InBlock<T> {
         Ok(InBlock { slot, hdr, total, relocations: 0 })
     }
 
+    /// the cal shared-memory pool allocator (management data + payload of `cap` 16-byte buckets) as every process
+    /// that maps the segment sees it: header, index-set cells and payload in ONE relocatable block; allocations are
+    /// PointerOffsets, nothing may refer to the addresses of the process that initialised it
+    pub fn new_shmpool(cap: usize) -> Result<InBlock<iceoryx2_cal::shm_allocator::pool_allocator::PoolAllocator>, String> {
+        use iceoryx2_cal::shm_allocator::ShmAllocator;
+        use iceoryx2_cal::shm_allocator::pool_allocator::{Config, PoolAllocator as ShmPool};
+        if cap == 0 {
+            return Err("capacity 0".into());
+        }
+        let conf = Config { bucket_layout: core::alloc::Layout::from_size_align(16, 16).unwrap() };
+        let payload = cap * 16;
+        let mgmt = (ShmPool::management_size(payload, &conf) + 64 + 15) & !15;
+        let hdr_size = (core::mem::size_of::<ShmPool>() + 15) & !15;
+        let total = hdr_size + mgmt + payload;
+        assert!(total + MAX_OFFSET <= SLOT_SIZE, "object too large for a slot: {total}");
+        let (slot, off) = POOL.with(|p| p.borrow_mut().take(total));
+        let hdr = unsafe { slot.add(off) } as *mut ShmPool;
+        unsafe {
+            let mgmt_start = (hdr as *mut u8).add(hdr_size);
+            let payload_start = mgmt_start.add(mgmt);
+            let mem = NonNull::slice_from_raw_parts(NonNull::new_unchecked(payload_start), payload);
+            hdr.write(ShmPool::new_uninit(4096, mem, &conf));
+            let alloc = BumpAllocator::new(NonNull::new_unchecked(mgmt_start), mgmt);
+            if let Err(e) = (*hdr).init(&alloc) {
+                POOL.with(|p| p.borrow_mut().poison(slot, hdr as *mut u8, total));
+                return Err(format!("init failed: {e:?}"));
+            }
+        }
+        Ok(InBlock { slot, hdr, total, relocations: 0 })
+    }
+
     /// a self-contained (inline) value moved into the block
     pub fn new_inline(value: T) -> Self {
         let total = core::mem::size_of::<T>();
